@@ -15,8 +15,14 @@ var errSource = errors.New("hsrc: source problem")
 func c09scenario(k int, watching bool) {
 	verifyLog = nil
 	log := &cbLog{}
-	flags := zzverif.Choose("flags", 4)
+	// SkipInitialVerification is not a delay: with it (and no delay) re-stacks are verified from
+	// the start and nothing is withheld
+	flags := zzverif.Choose("flags", 6)
 	delay, suppress := flags&1 != 0, flags&2 != 0
+	skip := flags >= 4
+	if skip {
+		delay, suppress = false, flags == 5
+	}
 	def := hcfg{}
 	initBad := zzverif.Bool("initBad")
 	init := hval{setA: true, a: 0, setBad: true, bad: initBad}
@@ -30,15 +36,16 @@ func c09scenario(k int, watching bool) {
 	}
 	p := log.params()
 	p.DelayInitialVerification = delay
+	p.SkipInitialVerification = skip
 	p.CallGlobalCallbacksAfterVerificationEnabled = suppress
 	ctx, cancel := context.WithCancel(context.Background())
 	defer cancel()
 	d, err := p.Config(ctx, &def, src)
 	if err != nil {
-		zzverif.Assert(zzverif.And(initBad, !delay), "C04 Config failed although verification is delayed or the stack is valid")
+		zzverif.Assert(zzverif.And(initBad, !delay && !skip), "C04 Config failed although verification is delayed or skipped or the stack is valid")
 		return
 	}
-	zzverif.Assert(zzverif.Not(zzverif.And(initBad, !delay)), "C04 Config accepted an initial stack that fails Verify")
+	zzverif.Assert(zzverif.Not(zzverif.And(initBad, !delay && !skip)), "C04 Config accepted an initial stack that fails Verify")
 	delayInForce := delay
 	if delay {
 		zzverif.Assert(len(verifyLog) == 0, "C09 Verify was invoked before EnableVerification although verification is delayed")
@@ -164,4 +171,32 @@ func HarnessC09Race() {
 		zzverif.Assert(bad, "C09 EnableVerification failed although every config is valid")
 	}
 	zzverif.Reached("c09-race-end")
+}
+
+// HarnessC09EnableCancel: an EnableVerification call abandoned by its caller (its context ends at
+// an arbitrary moment) must not wedge the monitor: a retry is answered, later re-stacks are
+// installed and verified.
+func HarnessC09EnableCancel() {
+	verifyLog = nil
+	def := hcfg{}
+	ws := &hwsrc{hsrc{name: "s0", init: hval{setA: true, a: 0}}}
+	p := Params[hcfg]{DelayInitialVerification: true}
+	ctx, cancel := context.WithCancel(context.Background())
+	defer cancel()
+	d, err := p.Config(ctx, &def, ws)
+	if err != nil {
+		zzverif.Fail("C04 Config failed with delayed verification")
+		return
+	}
+	ectx, ecancel := context.WithCancel(ctx)
+	go func() { ecancel() }()
+	_, _, _ = d.EnableVerification(ectx)
+	zzverif.Quiesce()
+	_, _, e2 := d.EnableVerification(ctx)
+	zzverif.Assert(e2 == nil, "C09 EnableVerification retried after an abandoned call failed on a valid config")
+	e := ws.wa.BlockingReportNewValue(ctx, mkValue(ws.t, hval{setA: true, a: 2}))
+	zzverif.Assert(e == nil && d.View().A == 2, "C09 after a caller abandoned EnableVerification new configs are no longer installed (monitor wedged)")
+	bad := ws.wa.BlockingReportNewValue(ctx, mkValue(ws.t, hval{setA: true, a: 3, setBad: true, bad: true}))
+	zzverif.Assert(bad != nil && d.View().A == 2, "C09 after EnableVerification succeeded an invalid re-stack was installed")
+	zzverif.Reached("c09-enable-cancel-end")
 }
